@@ -436,6 +436,43 @@ func c08(x *mon.Ctx) {
 			add("td-attributes-bit", fmt.Sprintf("base=%#x^bit%d", baseA, b), qp, ref.Policy{})
 		}
 	}
+	// every mask-violating bit with the policy pinning XFAM, TD_ATTRIBUTES, both, or every field to the quote's own values: an exact
+	// expectation that is met does not switch the fixed-bit masks off
+	for b := 0; b < 64; b++ {
+		for fi, field := range []string{"xfam", "td_attributes"} {
+			qp := policyQuote(r)
+			off := []int{128, 120}[fi]
+			base := []uint64{3, 0}[fi]
+			binary.LittleEndian.PutUint64(qp.Body[off:], base^(1<<uint(b)))
+			q, _ := ref.ParseQuote(qp.Bytes())
+			for _, pin := range []string{"xfam", "td_attributes", "both", "every-field"} {
+				var pol ref.Policy
+				switch pin {
+				case "xfam":
+					pol.Xfam = q.Xfam
+				case "td_attributes":
+					pol.TdAttributes = q.TdAttributes
+				case "both":
+					pol.Xfam, pol.TdAttributes = q.Xfam, q.TdAttributes
+				default:
+					pol = ref.Policy{QeVendorID: q.QeVendorID, MinTeeTcbSvn: q.TeeTcbSvn, MrSeam: q.MrSeam, TdAttributes: q.TdAttributes, Xfam: q.Xfam, MrTd: q.MrTd, MrConfigID: q.MrConfigID,
+						MrOwner: q.MrOwner, MrOwnerConfig: q.MrOwnerConfig, ReportData: q.ReportData, Rtmrs: q.Rtmrs[:], AnyMrTd: [][]byte{q.MrTd}}
+				}
+				add(strings.ReplaceAll(field, "_", "-")+"-bit", fmt.Sprintf("bit%d/pinned=%s", b, pin), qp, pol)
+			}
+		}
+	}
+	// MR_TD pinned AND an allow-list: both must hold (pinned value met / not met x allow-list contains it / does not)
+	for rep := 0; rep < 6; rep++ {
+		qp := policyQuote(r)
+		q, _ := ref.ParseQuote(qp.Bytes())
+		other, other2 := variant(r, "random-differs", q.MrTd), variant(r, "first-differs", q.MrTd)
+		for _, pinned := range [][]byte{q.MrTd, other} {
+			for li, list := range [][][]byte{{q.MrTd}, {other}, {other2, other}, {other, q.MrTd, other2}, {other2}} {
+				add("mr-td-and-any-mr-td", fmt.Sprintf("pinned-met=%v/list%d#%d", bytes.Equal(pinned, q.MrTd), li, rep), qp, ref.Policy{MrTd: pinned, AnyMrTd: list})
+			}
+		}
+	}
 	// a policy that expects a value outside the masks: the quote must equal it AND respect the masks
 	{
 		qp := policyQuote(r)
@@ -567,7 +604,8 @@ func c08(x *mon.Ctx) {
 		})
 		x.Require("verbose/field-and-list-cases", 50, 200, len(vc))
 	})
-	x.Require("xfam-bit", 12, 100, 128)
+	x.Require("xfam-bit", 40, 300, 380)
+	x.Require("mr-td-and-any-mr-td", 12, 40, 60)
 	// ---- allow-list entries that CONTAIN the quote's MR_TD across an entry boundary (A ends with its first c bytes, B starts with
 	//      the rest): membership is per entry
 	for h := 0; h < x.Pick(24, 400); h++ {
@@ -916,7 +954,7 @@ func c08(x *mon.Ctx) {
 		}
 		x.Require("malformed-message", 0, n, n)
 	}
-	x.Require("td-attributes-bit", 4, 100, 128)
+	x.Require("td-attributes-bit", 12, 300, 380)
 	x.Require("min-qe-svn", 15, 8, 25)
 	x.Require("min-pce-svn", 15, 8, 25)
 	x.Require("min-tee-tcb-svn-component", 60, 30, 96)
